@@ -67,7 +67,7 @@ def setup():
 # generator
 # ------------------------------------------------------------------------------------
 STR_POOL = b"()\\\r\n\n\r01278nrtbfa z#/%<>[]\x00\xff\xe9\t\x0c"
-NAME_POOL = b"AbZ09 #/%()<>[]{}._-\xc3\xa9\xff\t\n+"
+NAME_POOL = b"AbZ09 #/%()<>[]{}._-\xc3\xa9\xff\t\n+\xe9\xe9"  # (e9: Latin-1 e-acute, next to its UTF-8 form c3 a9)
 
 
 def gen_bytes(t, pool, maxlen, label):
@@ -144,7 +144,7 @@ def gen_value(t, depth, budget):
     if k == 7:
         d = {}
         for _ in range(t.draw(6, "dict.n")):
-            key = gen_name(t, utf8=True)
+            key = gen_name(t, utf8=not t.coin(20, 100, "dict.rawkey"))  # some keys are not valid UTF-8
             if key.b in d:
                 continue
             d[key.b] = gen_value(t, depth - 1, budget)
